@@ -21,7 +21,13 @@ df = import_df()
 
 OPS = ("grad", "div", "curl", "laplace")
 COQ_OP = dict(grad="OGrad", div="ODiv", curl="OCurl", laplace="OLap")
-DIM_POOL = ["x", "y", "z", "a", "b", "c", "r", "t", "q", "u0", "len", "w"]
+DIM_POOL = ["x", "y", "z", "a", "b", "c", "r", "t", "q", "u0", "len", "w", "n", "e", "u", "m", "d", "i"]
+BC_KEYWORDS = ("neumann", "dirichlet")
+
+
+def is_periodic(bc, d):
+    """a direction is periodic iff bc (not one of the keywords) lists exactly its one-letter name"""
+    return bc not in BC_KEYWORDS and d in tuple(bc)
 LBL_POOL = ["p", "q", "s", "u", "w", "mx", "my", "mz", "x", "y", "z", "a", "b", "c", "k1", "e"]
 TOL = 1e-9
 
@@ -72,7 +78,7 @@ def build(c):
     p1 = [float(F(x)) for x in c["p1"]]
     p2 = [a + k * h for a, k, h in zip(p1, sh, cell)]
     dims = c.get("dims") or default_dims(nd)
-    bc = "".join(dims[a] for a in c["periodic_axes"])
+    bc = c["bc"] if c.get("bc") is not None else "".join(dims[a] for a in c["periodic_axes"])
     prep = c.get("prep", "list")
     p1a, p2a = rep_seq(p1, prep, True), rep_seq(p2, prep, True)
     n_arg = rep_n(sh, c.get("nrep", "list"))
@@ -133,7 +139,7 @@ def read_state(f):
     pmin = [F(float(x)) for x in reg.pmin]
     pmax = [F(float(x)) for x in reg.pmax]
     cells = [(b - a) / k for a, b, k in zip(pmin, pmax, n)]
-    per = [d in f.mesh.bc for d in dims]
+    per = [is_periodic(f.mesh.bc, d) for d in dims]
     arr = np.asarray(f.array)
     return dict(dims=dims, n=n, pmin=pmin, pmax=pmax, cells=cells, per=per, bc=f.mesh.bc,
                 re=js(np.real(arr).reshape(-1)), im=js(np.imag(arr).reshape(-1)) if arr.dtype.kind == "c" else None,
@@ -569,13 +575,86 @@ def with_history(c, rng):
             steps.append([kind, [rng.random() > 0.3 for _ in range(ncell)]])
     if not steps:
         steps.append(["mesh_scale", [g.qs(F(-2))]])
-    # rotations exchange the periodic roles; keep the history free of periodic axes when it rotates
-    if any(s_[0] in ("field_rot", "mesh_rot") for s_ in steps):
-        c["periodic_axes"] = []
     c["pre"] = steps
     c.pop("poly", None)
     c.pop("polydeg", None)
     return c
+
+
+def rotper_case(rng, tier, op, k):
+    """quarter-turn commutation with exactly ONE periodic axis in the rotation plane (plus, at random,
+    periodic axes outside the plane); one-letter dimension names so that every axis can be periodic"""
+    while True:
+        c = fitting_case(rng, tier, op=op, allvalid=(rng.random() < 0.5))
+        nd, nv = len(c["sh"]), c["nvdim"]
+        if nd >= 2 and (nv == 1 or nv == nd):
+            break
+    c = dict(c)
+    c["stream"] = "rotper"
+    names = rng.sample(["x", "y", "z", "a", "b", "c", "r", "t", "q", "w", "n", "e", "u", "m", "d", "i"], nd) \
+        if (nd > 3 or rng.random() < 0.5) else None
+    old_names = c["dims"] or default_dims(nd)
+    new_names = names or default_dims(nd)
+    ren = dict(zip(old_names, new_names))
+    c["dims"] = names
+    if c.get("vmap") is not None:
+        c["vmap"] = [[l, ren.get(d, d)] for l, d in c["vmap"]]
+    if c.get("vdims") is not None and any(l in new_names for l in c["vdims"]) and nv > 1:
+        pass        # labels spelled like dims are welcome
+    a, b = rng.sample(range(nd), 2)
+    others = [t for t in range(nd) if t not in (a, b)]
+    c["periodic_axes"] = sorted([a] + [t for t in others if rng.random() < 0.5])
+    c["rot"] = [a, b, k] if rng.random() < 0.5 else [b, a, k]
+    c.pop("poly", None)
+    c.pop("polydeg", None)
+    return c
+
+
+def bcname_cases(rng, tier):
+    """bc keywords and dimension names made of their letters; a multi-character name contained in bc"""
+    out = []
+    for _ in range(24 if tier == "quick" else 200):
+        c = dict(fitting_case(rng, tier))
+        nd = len(c["sh"])
+        c["stream"] = "bcnames"
+        names = rng.sample(["n", "e", "u", "m", "a", "d", "i", "r"], nd)
+        old_names = c["dims"] or default_dims(nd)
+        ren = dict(zip(old_names, names))
+        c["dims"] = names
+        if c.get("vmap") is not None:
+            c["vmap"] = [[l, ren.get(d, d)] for l, d in c["vmap"]]
+        r = rng.random()
+        if r < 0.4:
+            c["bc"] = rng.choice(BC_KEYWORDS)      # a keyword names no dimension
+            c["periodic_axes"] = []
+        elif r < 0.5:
+            c["bc"] = ""
+            c["periodic_axes"] = []
+        else:
+            c["periodic_axes"] = sorted(rng.sample(range(nd), rng.randint(1, nd)))
+        c.pop("poly", None)
+        c.pop("polydeg", None)
+        out.append(c)
+    # ('x', 'y', 'xy') with bc = 'xy': x and y are periodic, the dimension called 'xy' is not
+    for op in OPS:
+        for _ in range(3 if tier == "quick" else 20):
+            while True:
+                c = dict(fitting_case(rng, tier, op=op))
+                if len(c["sh"]) == 3:
+                    break
+            names = rng.choice([["x", "y", "xy"], ["xy", "x", "y"], ["y", "yx", "x"]])
+            old_names = c["dims"] or default_dims(3)
+            ren = dict(zip(old_names, names))
+            c["dims"] = names
+            if c.get("vmap") is not None:
+                c["vmap"] = [[l, ren.get(d, d)] for l, d in c["vmap"]]
+            c["bc"] = "xy" if "xy" in names else "yx"
+            c["periodic_axes"] = [t for t, nm in enumerate(names) if len(nm) == 1]
+            c["stream"] = "bcnames"
+            c.pop("poly", None)
+            c.pop("polydeg", None)
+            out.append(c)
+    return out
 
 
 def hardening_cases(rng, tier):
@@ -600,6 +679,12 @@ def hardening_cases(rng, tier):
         out.append(with_magnitude(fitting_case(rng, tier), rng))
     for _ in range(50 if q else 500):
         out.append(with_representation(fitting_case(rng, tier), rng))
+    # quarter turns with one periodic in-plane axis: all four operators, odd and even k
+    for op in OPS:
+        for k in (1, 2, 3, -1, 5, 4):
+            for _ in range(3 if q else 25):
+                out.append(rotper_case(rng, tier, op, k))
+    out += bcname_cases(rng, tier)
     for _ in range(110 if q else 1100):
         base = fitting_case(rng, tier)
         if rng.random() < 0.2:
@@ -887,13 +972,15 @@ def oracle_ok(rec, c, f, dims, res, op, tol, exact, fully_valid, scale):
         h = hash(tuple(c["vals"][:8]))
         a, b = pairs[h % len(pairs)]
         k = 1 + (h // 7) % 3
-        pa = (dims[a] in f.mesh.bc) == (dims[b] in f.mesh.bc)
+        if c.get("rot") and not c.get("pre"):
+            a, b, k = c["rot"]
+        # any set of periodic axes: Mesh.rotate90 exchanges the periodicity of the two axes for odd k
         # Field.rotate90 keeps the storage type: an unsigned vector field, or a signed one holding the
         # most negative value of its type, cannot hold the rotated components (C12's concern, not C05's)
         dtk = f.array.dtype
         rot_representable = dtk.kind in "fc" or nv == 1 or \
             (dtk.kind == "i" and int(f.array.min()) > np.iinfo(dtk).min)
-        if pa and rot_representable:
+        if rot_representable:
             st1, fr = attempt(lambda: f.rotate90(dims[a], dims[b], k=k))
             st2, rr = attempt(lambda: res.rotate90(dims[a], dims[b], k=k))
             if st1 == "ok" and st2 == "ok":
